@@ -27,6 +27,20 @@ use zipora::string::{
 use zipora::FastStr;
 use zv::*;
 
+// ---------------------------------------------------------------- trace file layout
+
+/// Runs of one subject group go to their own trace files (`group`), so that the runs of a subject
+/// with a recorded deviation can be re-validated in KF mode without dragging other subjects along.
+static NEXT_MAX: std::sync::atomic::AtomicUsize = std::sync::atomic::AtomicUsize::new(3000);
+fn group(t: &mut Tracer, events_per_file: usize) {
+    t.max_events = 0; // the next reset opens a new file
+    NEXT_MAX.store(events_per_file, std::sync::atomic::Ordering::Relaxed);
+}
+fn rst(t: &mut Tracer, subject: &str, cfg: Value) {
+    t.reset("strings", subject, cfg);
+    t.max_events = NEXT_MAX.load(std::sync::atomic::Ordering::Relaxed);
+}
+
 // ---------------------------------------------------------------- projections
 
 fn ord(o: Ordering) -> i32 {
@@ -201,35 +215,69 @@ fn matrix<F: Fn(usize, usize) -> Value>(n: usize, m: usize, f: F) -> Value {
     Value::Array((0..n).map(|i| Value::Array((0..m).map(|j| f(i, j)).collect())).collect())
 }
 
+/// Bookkeeping for the evidence file.  `evals` counts every answer of the implementation that was
+/// logged; `seen` holds fingerprints of the distinct NON-TRIVIAL cases (subject + inputs): a pair of
+/// different strings for a binary operation, a non-empty input for a unary one, a scan of a
+/// non-empty list ...  Fingerprints are bookkeeping only - nothing is judged here.
 struct Stats {
     evals: u64,
     events: u64,
-    cases: u64, // distinct non-trivial cases (see rule in tools/props/C20.py)
+    seen: std::collections::HashSet<u64>,
     subjects: serde_json::Map<String, Value>,
 }
+fn fp(subject: &str, parts: &[&[u8]]) -> u64 {
+    let mut h: u64 = 0xcbf29ce484222325;
+    let mut eat = |b: &[u8]| {
+        for &x in b {
+            h = (h ^ x as u64).wrapping_mul(0x100000001b3);
+        }
+        h = (h ^ 0x1ff).wrapping_mul(0x100000001b3);
+    };
+    eat(subject.as_bytes());
+    for p in parts {
+        eat(p);
+    }
+    h
+}
 impl Stats {
-    fn add(&mut self, subject: &str, evals: u64, cases: u64) {
+    fn entry(&mut self, subject: &str) -> &mut Value {
+        self.subjects.entry(subject.to_string()).or_insert(json!({"evals":0u64,"cases":0u64,"events":0u64}))
+    }
+    /// one logged event carrying `evals` answers
+    fn add(&mut self, subject: &str, evals: u64) {
         self.evals += evals;
-        self.cases += cases;
         self.events += 1;
-        let e = self.subjects.entry(subject.to_string()).or_insert(json!({"evals":0u64,"cases":0u64,"events":0u64}));
+        let e = self.entry(subject);
         e["evals"] = json!(e["evals"].as_u64().unwrap() + evals);
-        e["cases"] = json!(e["cases"].as_u64().unwrap() + cases);
         e["events"] = json!(e["events"].as_u64().unwrap() + 1);
     }
-}
-
-/// number of (i, j) pairs with different contents: the non-trivial cells of a matrix
-fn distinct_pairs(a: &[Vec<u8>], b: &[Vec<u8>]) -> u64 {
-    let mut n = 0;
-    for x in a {
-        for y in b {
-            if x != y {
-                n += 1;
+    /// one non-trivial case; counted once per subject however often it recurs
+    fn case(&mut self, subject: &str, parts: &[&[u8]]) {
+        if self.seen.insert(fp(subject, parts)) {
+            let e = self.entry(subject);
+            e["cases"] = json!(e["cases"].as_u64().unwrap() + 1);
+        }
+    }
+    /// the pairs of different strings of a matrix
+    fn pairs(&mut self, subject: &str, a: &[Vec<u8>], b: &[Vec<u8>]) {
+        let mut n = 0u64;
+        for x in a {
+            for y in b {
+                if x != y && self.seen.insert(fp(subject, &[x, y])) {
+                    n += 1;
+                }
+            }
+        }
+        let e = self.entry(subject);
+        e["cases"] = json!(e["cases"].as_u64().unwrap() + n);
+    }
+    fn singles(&mut self, subject: &str, a: &[Vec<u8>]) {
+        for x in a {
+            if !x.is_empty() {
+                self.case(subject, &[x]);
             }
         }
     }
-    n
 }
 
 fn panic_ev(t: &mut Tracer, inop: &str, msg: String) {
@@ -242,10 +290,9 @@ fn drive_faststr(t: &mut Tracer, a: &Args, st: &mut Stats, fam: &str, pool: &[Ve
     let n = pool.len();
     let pj = pool_json(pool);
     let cells = (n * n) as u64;
-    let dp = distinct_pairs(pool, pool);
     // ---- ordering
     if a.wants("faststr:cmp") {
-        t.reset("strings", "faststr:cmp", json!({"fam":"faststr","variant":fam}));
+        rst(t, "faststr:cmp", json!({"fam":"faststr","variant":fam}));
         for via in ["cmp", "partial_cmp", "compare"] {
             let r = guard(|| {
                 matrix(n, n, |i, j| {
@@ -261,7 +308,7 @@ fn drive_faststr(t: &mut Tracer, a: &Args, st: &mut Stats, fam: &str, pool: &[Ve
                 Ok(m) => t.ev(json!({"op":"cmp_matrix","via":via,"a":pj,"b":pj,"m":m,"sq":n <= 64})),
                 Err(e) => panic_ev(t, "cmp_matrix", e),
             }
-            st.add("faststr:cmp", cells, dp);
+            st.add("faststr:cmp", cells);
         }
         // the comparison operators derived from PartialOrd
         let m = matrix(n, n, |i, j| {
@@ -275,25 +322,27 @@ fn drive_faststr(t: &mut Tracer, a: &Args, st: &mut Stats, fam: &str, pool: &[Ve
             })
         });
         t.ev(json!({"op":"cmp_matrix","via":"lt_gt","a":pj,"b":pj,"m":m,"sq":n <= 64}));
-        st.add("faststr:cmp", cells, dp);
+        st.add("faststr:cmp", cells);
+        st.pairs("faststr:cmp", pool, pool);
     }
     // ---- equality
     if a.wants("faststr:eq") {
-        t.reset("strings", "faststr:eq", json!({"fam":"faststr","variant":fam}));
+        rst(t, "faststr:eq", json!({"fam":"faststr","variant":fam}));
         let m = matrix(n, n, |i, j| json!(pa[i].fs() == pb[j].fs()));
         t.ev(json!({"op":"eq_matrix","via":"eq","a":pj,"b":pj,"m":m}));
         let m = matrix(n, n, |i, j| json!(pa[i].fs() == *pb[j].bytes()));
         t.ev(json!({"op":"eq_matrix","via":"eq_bytes","a":pj,"b":pj,"m":m}));
         let m = matrix(n, n, |i, j| json!(pa[i].fs() != pb[j].fs()));
         t.ev(json!({"op":"eq_matrix","via":"ne","a":pj,"b":pj,"m":m,"neg":true}));
-        st.add("faststr:eq", 3 * cells, dp);
+        st.add("faststr:eq", 3 * cells);
+        st.pairs("faststr:eq", pool, pool);
     }
     // ---- hashing: several copies of every string at different addresses / alignments
     for (subject, via) in [("faststr:hash_fast", "hash_fast"), ("faststr:hash_std", "hash_std")] {
         if !a.wants(subject) {
             continue;
         }
-        t.reset("strings", subject, json!({"fam":"faststr","variant":fam}));
+        rst(t, subject, json!({"fam":"faststr","variant":fam}));
         let offs = [0usize, 1, 2, 3, 5, 8, 13, 16, 31, 32, 33];
         let h: Vec<Value> = pool
             .iter()
@@ -316,7 +365,8 @@ fn drive_faststr(t: &mut Tracer, a: &Args, st: &mut Stats, fam: &str, pool: &[Ve
             })
             .collect();
         t.ev(json!({"op":"hash","via":via,"pool":pj,"h":h}));
-        st.add(subject, (n * offs.len()) as u64, n as u64);
+        st.add(subject, (n * offs.len()) as u64);
+        st.singles(subject, pool);
     }
     // ---- prefix / suffix / find / common prefix
     let preds: [(&str, &str); 4] = [
@@ -329,7 +379,7 @@ fn drive_faststr(t: &mut Tracer, a: &Args, st: &mut Stats, fam: &str, pool: &[Ve
         if !a.wants(subject) {
             continue;
         }
-        t.reset("strings", subject, json!({"fam":"faststr","variant":fam}));
+        rst(t, subject, json!({"fam":"faststr","variant":fam}));
         let r = guard(|| {
             matrix(n, n, |i, j| {
                 let (x, y) = (pa[i].fs(), pb[j].fs());
@@ -345,10 +395,11 @@ fn drive_faststr(t: &mut Tracer, a: &Args, st: &mut Stats, fam: &str, pool: &[Ve
             Ok(m) => t.ev(json!({"op":op,"a":pj,"b":pj,"m":m})),
             Err(e) => panic_ev(t, op, e),
         }
-        st.add(subject, cells, dp);
+        st.add(subject, cells);
+        st.pairs(subject, pool, pool);
     }
     if a.wants("faststr:find_byte") {
-        t.reset("strings", "faststr:find_byte", json!({"fam":"faststr","variant":fam}));
+        rst(t, "faststr:find_byte", json!({"fam":"faststr","variant":fam}));
         let bytes: Vec<u8> = vec![0x00, b'a', b'b', b'p', b'x', b'y', 0x7f, 0x80, 0xff];
         for via in ["find_byte", "find_byte_optimized"] {
             let m = matrix(n, bytes.len(), |i, k| {
@@ -356,12 +407,13 @@ fn drive_faststr(t: &mut Tracer, a: &Args, st: &mut Stats, fam: &str, pool: &[Ve
                 json!(opos(if via == "find_byte" { x.find_byte(bytes[k]) } else { x.find_byte_optimized(bytes[k]) }))
             });
             t.ev(json!({"op":"find_byte","via":via,"a":pj,"bytes":bytes,"m":m}));
-            st.add("faststr:find_byte", (n * bytes.len()) as u64, n as u64);
+            st.add("faststr:find_byte", (n * bytes.len()) as u64);
+            st.singles("faststr:find_byte", pool);
         }
     }
     // ---- slicing
     if a.wants("faststr:slice") {
-        t.reset("strings", "faststr:slice", json!({"fam":"faststr","variant":fam}));
+        rst(t, "faststr:slice", json!({"fam":"faststr","variant":fam}));
         for (i, s) in pool.iter().enumerate() {
             if s.len() > 70 && i % 3 != 0 {
                 continue;
@@ -408,45 +460,51 @@ fn drive_faststr(t: &mut Tracer, a: &Args, st: &mut Stats, fam: &str, pool: &[Ve
             }
             let nc = cases.len() as u64;
             t.ev(json!({"op":"slice","s":bj(s),"cases":cases}));
-            st.add("faststr:slice", nc, if len > 0 { 1 } else { 0 });
+            st.add("faststr:slice", nc);
+            st.singles("faststr:slice", std::slice::from_ref(s));
         }
     }
 }
 
-fn drive_simd(t: &mut Tracer, a: &Args, st: &mut Stats, fam: &str, pool: &[Vec<u8>]) {
+fn drive_simd(t: &mut Tracer, a: &Args, st: &mut Stats, fam: &str, pool: &[Vec<u8>], strcmp_only: bool) {
     let pa = place_all(pool, 2);
     let pb = place_all(pool, 3);
     let n = pool.len();
     let pj = pool_json(pool);
     let cells = (n * n) as u64;
-    let dp = distinct_pairs(pool, pool);
-    if a.wants("simd:sse42_strcmp") {
-        t.reset("strings", "simd:sse42_strcmp", json!({"fam":"simd","variant":fam}));
+    if strcmp_only && a.wants("simd:sse42_strcmp") {
+        rst(t, "simd:sse42_strcmp", json!({"fam":"simd","variant":fam}));
         match guard(|| matrix(n, n, |i, j| json!(ord(sse42_strcmp(pa[i].bytes(), pb[j].bytes()))))) {
             Ok(m) => t.ev(json!({"op":"cmp_matrix","via":"sse42_strcmp","a":pj,"b":pj,"m":m,"sq":n <= 64})),
             Err(e) => panic_ev(t, "cmp_matrix", e),
         }
-        st.add("simd:sse42_strcmp", cells, dp);
+        st.add("simd:sse42_strcmp", cells);
+        st.pairs("simd:sse42_strcmp", pool, pool);
+    }
+    if strcmp_only {
+        return;
     }
     // strstr / strchr document no answer for an empty haystack or needle: non-empty inputs only
     let ne: Vec<usize> = (0..n).filter(|&i| !pool[i].is_empty()).collect();
     let nej = Value::Array(ne.iter().map(|&i| bj(&pool[i])).collect());
     if a.wants("simd:sse42_strstr") {
-        t.reset("strings", "simd:sse42_strstr", json!({"fam":"simd","variant":fam}));
+        rst(t, "simd:sse42_strstr", json!({"fam":"simd","variant":fam}));
         match guard(|| matrix(ne.len(), ne.len(), |i, j| json!(opos(sse42_strstr(pa[ne[i]].bytes(), pb[ne[j]].bytes()))))) {
             Ok(m) => t.ev(json!({"op":"find_matrix","via":"sse42_strstr","a":nej,"b":nej,"m":m})),
             Err(e) => panic_ev(t, "find_matrix", e),
         }
-        st.add("simd:sse42_strstr", (ne.len() * ne.len()) as u64, dp);
+        st.add("simd:sse42_strstr", (ne.len() * ne.len()) as u64);
+        st.pairs("simd:sse42_strstr", pool, pool);
     }
     if a.wants("simd:sse42_strchr") {
-        t.reset("strings", "simd:sse42_strchr", json!({"fam":"simd","variant":fam}));
+        rst(t, "simd:sse42_strchr", json!({"fam":"simd","variant":fam}));
         let bytes: Vec<u8> = vec![0x00, b'a', b'b', b'p', b'x', b'y', 0x7f, 0x80, 0xff];
         match guard(|| matrix(ne.len(), bytes.len(), |i, k| json!(opos(sse42_strchr(pa[ne[i]].bytes(), bytes[k]))))) {
             Ok(m) => t.ev(json!({"op":"find_byte","via":"sse42_strchr","a":nej,"bytes":bytes,"m":m})),
             Err(e) => panic_ev(t, "find_byte", e),
         }
-        st.add("simd:sse42_strchr", (ne.len() * bytes.len()) as u64, ne.len() as u64);
+        st.add("simd:sse42_strchr", (ne.len() * bytes.len()) as u64);
+        st.singles("simd:sse42_strchr", pool);
     }
 }
 
@@ -511,22 +569,25 @@ fn numeric_pools(rng: &Rng, thorough: bool) -> Vec<(String, Vec<String>)> {
 
 fn drive_numeric(t: &mut Tracer, a: &Args, st: &mut Stats, rng: &Rng) {
     let pools = numeric_pools(rng, a.thorough());
-    for (fam, pool) in &pools {
-        let pj = spool_json(pool);
-        let n = pool.len();
-        let chunk = 64;
-        for (subject, kind) in [("numcmp:decimal_strcmp", "decimal"), ("numcmp:realnum_strcmp", "real")] {
-            if !a.wants(subject) {
-                continue;
-            }
-            t.reset("strings", subject, json!({"fam":"numcmp","variant":fam}));
+    for (subject, kind) in [("numcmp:decimal_strcmp", "decimal"), ("numcmp:realnum_strcmp", "real")] {
+        if !a.wants(subject) {
+            continue;
+        }
+        group(t, 40);
+        for (fam, pool) in &pools {
+            let pj = spool_json(pool);
+            let n = pool.len();
+            let chunk = 64;
+            rst(t, subject, json!({"fam":"numcmp","variant":fam}));
             let f = |x: &str, y: &str| if kind == "decimal" { decimal_strcmp(x, y) } else { realnum_strcmp(x, y) };
             if n <= chunk {
                 match guard(|| matrix(n, n, |i, j| json!(oord(f(&pool[i], &pool[j]))))) {
                     Ok(m) => t.ev(json!({"op":"numcmp","kind":kind,"a":pj,"b":pj,"m":m,"sq":n <= 64})),
                     Err(e) => panic_ev(t, "numcmp", e),
                 }
-                st.add(subject, (n * n) as u64, (n * n - n) as u64);
+                st.add(subject, (n * n) as u64);
+                let pb: Vec<Vec<u8>> = pool.iter().map(|x| x.as_bytes().to_vec()).collect();
+                st.pairs(subject, &pb, &pb);
             } else {
                 // row blocks against the whole pool
                 let mut lo = 0;
@@ -537,10 +598,13 @@ fn drive_numeric(t: &mut Tracer, a: &Args, st: &mut Stats, rng: &Rng) {
                         Ok(m) => t.ev(json!({"op":"numcmp","kind":kind,"a":spool_json(&rows),"b":pj,"m":m,"sq":false})),
                         Err(e) => panic_ev(t, "numcmp", e),
                     }
-                    st.add(subject, ((hi - lo) * n) as u64, ((hi - lo) * (n - 1)) as u64);
+                    st.add(subject, ((hi - lo) * n) as u64);
+                    let ra: Vec<Vec<u8>> = rows.iter().map(|x| x.as_bytes().to_vec()).collect();
+                    let pb: Vec<Vec<u8>> = pool.iter().map(|x| x.as_bytes().to_vec()).collect();
+                    st.pairs(subject, &ra, &pb);
                     lo = hi;
                     if lo < n {
-                        t.reset("strings", subject, json!({"fam":"numcmp","variant":fam}));
+                        rst(t, subject, json!({"fam":"numcmp","variant":fam}));
                     }
                 }
             }
@@ -558,7 +622,8 @@ fn drive_numeric(t: &mut Tracer, a: &Args, st: &mut Stats, rng: &Rng) {
         if !a.wants(subject) {
             continue;
         }
-        t.reset("strings", subject, json!({"fam":"numcmp","variant":"with_sign"}));
+        group(t, 12);
+        rst(t, subject, json!({"fam":"numcmp","variant":"with_sign"}));
         let mut pool: Vec<(String, bool)> = vec![];
         for b in bodies {
             pool.push((b.to_string(), false));
@@ -577,7 +642,9 @@ fn drive_numeric(t: &mut Tracer, a: &Args, st: &mut Stats, rng: &Rng) {
             Ok(m) => t.ev(json!({"op":"numcmp_sign","kind":kind,"a":pj,"b":pj,"m":m})),
             Err(e) => panic_ev(t, "numcmp_sign", e),
         }
-        st.add(subject, (n * n) as u64, (n * n - n) as u64);
+        st.add(subject, (n * n) as u64);
+        let pb: Vec<Vec<u8>> = pool.iter().map(|(b, neg)| format!("{}{}", if *neg { "-" } else { "" }, b).into_bytes()).collect();
+        st.pairs(subject, &pb, &pb);
     }
 }
 
@@ -791,6 +858,7 @@ fn drive_lexiter(t: &mut Tracer, a: &Args, st: &mut Stats, rng: &Rng) {
             continue;
         }
         let streaming = subject == "lexiter:streaming";
+        group(t, 4000);
         for (fam, list) in &lists {
             let mut probes: Vec<String> = probes_extra.iter().map(|s| s.to_string()).collect();
             for s in list {
@@ -814,7 +882,7 @@ fn drive_lexiter(t: &mut Tracer, a: &Args, st: &mut Stats, rng: &Rng) {
                 li_step(t, c, list, "li_at_end", "");
             };
             // 1. forward scan from the initial position
-            t.reset("strings", subject, json!({"fam":"lexiter","variant":fam,"script":"forward"}));
+            rst(t, subject, json!({"fam":"lexiter","variant":fam,"script":"forward"}));
             new_ev(t);
             {
                 let mut c = mk_cursor(subject, list);
@@ -831,12 +899,15 @@ fn drive_lexiter(t: &mut Tracer, a: &Args, st: &mut Stats, rng: &Rng) {
                     }
                 }
             }
-            st.add(subject, list.len() as u64 + 4, if list.is_empty() { 0 } else { 1 });
+            st.add(subject, list.len() as u64 + 4);
+            if !list.is_empty() {
+                st.case(subject, &[b"forward", &list.join("\n").into_bytes()]);
+            }
             if streaming {
                 continue;
             }
             // 2. backward scan from the last element
-            t.reset("strings", subject, json!({"fam":"lexiter","variant":fam,"script":"backward"}));
+            rst(t, subject, json!({"fam":"lexiter","variant":fam,"script":"backward"}));
             new_ev(t);
             {
                 let mut c = mk_cursor(subject, list);
@@ -848,20 +919,26 @@ fn drive_lexiter(t: &mut Tracer, a: &Args, st: &mut Stats, rng: &Rng) {
                 li_step(t, &mut *c, list, "li_prev", "");
                 li_step(t, &mut *c, list, "li_current", "");
             }
-            st.add(subject, list.len() as u64 + 4, if list.is_empty() { 0 } else { 1 });
+            st.add(subject, list.len() as u64 + 4);
+            if !list.is_empty() {
+                st.case(subject, &[b"backward", &list.join("\n").into_bytes()]);
+            }
             // 3. every probe: lower bound then scan, upper bound then scan
             for op in ["li_lower", "li_upper"] {
-                t.reset("strings", subject, json!({"fam":"lexiter","variant":fam,"script":op}));
+                rst(t, subject, json!({"fam":"lexiter","variant":fam,"script":op}));
                 new_ev(t);
                 let mut c = mk_cursor(subject, list);
                 for p in &probes {
                     li_step(t, &mut *c, list, op, p);
                     scan(t, &mut *c, "li_next");
-                    st.add(subject, list.len() as u64 + 2, 1);
+                    st.add(subject, list.len() as u64 + 2);
+                    if !list.is_empty() {
+                        st.case(subject, &[op.as_bytes(), p.as_bytes(), &list.join("\n").into_bytes()]);
+                    }
                 }
             }
             // 4. prev from the end position, and a seeded walk over all operations
-            t.reset("strings", subject, json!({"fam":"lexiter","variant":fam,"script":"walk"}));
+            rst(t, subject, json!({"fam":"lexiter","variant":fam,"script":"walk"}));
             new_ev(t);
             {
                 let mut c = mk_cursor(subject, list);
@@ -874,7 +951,10 @@ fn drive_lexiter(t: &mut Tracer, a: &Args, st: &mut Stats, rng: &Rng) {
                     li_step(t, &mut *c, list, op, &p);
                     li_step(t, &mut *c, list, "li_current", "");
                 }
-                st.add(subject, steps as u64, 1);
+                st.add(subject, steps as u64);
+                if !list.is_empty() {
+                    st.case(subject, &[b"walk", &list.join("\n").into_bytes()]);
+                }
             }
         }
     }
@@ -931,12 +1011,13 @@ fn drive_sorted(t: &mut Tracer, a: &Args, st: &mut Stats, rng: &Rng) {
         ("sorted:zo_from_sorted", "zo_from_sorted"),
         ("sorted:zo_from_sortable", "zo_from_sortable"),
     ];
+    group(t, 200);
     for (subject, kind) in kinds {
         if !a.wants(subject) {
             continue;
         }
         for (fam, input) in &inputs {
-            t.reset("strings", subject, json!({"fam":"sorted","variant":fam}));
+            rst(t, subject, json!({"fam":"sorted","variant":fam}));
             let r = guard(|| -> Option<(Vec<String>, Vec<String>, usize)> {
                 if kind.starts_with("sortable") {
                     let mut sv = SortableStrVec::new();
@@ -979,11 +1060,15 @@ fn drive_sorted(t: &mut Tracer, a: &Args, st: &mut Stats, rng: &Rng) {
                 Ok(None) => t.ev(json!({"op":"sorted_enum","kind":kind,"ok":false,"input":spool_json(input),"r":[],"gets":[],"n":0})),
                 Err(m) => panic_ev(t, "sorted_enum", m),
             }
-            st.add(subject, input.len() as u64, if input.len() > 1 { 1 } else { 0 });
+            st.add(subject, input.len() as u64);
+            if input.len() > 1 {
+                st.case(subject, &[&input.join("\n").into_bytes()]);
+            }
         }
     }
     // range enumeration of ZoSortedStrVec: [lo, hi)
     if a.wants("sorted:zo_range") {
+        group(t, 60);
         let lists = lexiter_lists(rng, a.thorough());
         let probes = ["", "a", "a\u{e9}", "aa", "b", "bb", "k", "\u{e9}", "\u{10ffff}"];
         for (fam, list) in lists.iter().filter(|(f, _)| !f.starts_with("exh") || f.len() <= 5) {
@@ -991,7 +1076,7 @@ fn drive_sorted(t: &mut Tracer, a: &Args, st: &mut Stats, rng: &Rng) {
                 Ok(z) => z,
                 Err(_) => continue,
             };
-            t.reset("strings", "sorted:zo_range", json!({"fam":"sorted","variant":fam}));
+            rst(t, "sorted:zo_range", json!({"fam":"sorted","variant":fam}));
             let mut cases = vec![];
             for lo in probes {
                 for hi in probes {
@@ -1003,7 +1088,14 @@ fn drive_sorted(t: &mut Tracer, a: &Args, st: &mut Stats, rng: &Rng) {
             }
             let nc = cases.len() as u64;
             t.ev(json!({"op":"zo_range","S":spool_json(list),"cases":cases}));
-            st.add("sorted:zo_range", nc, nc);
+            st.add("sorted:zo_range", nc);
+            if !list.is_empty() {
+                for lo in probes {
+                    for hi in probes {
+                        st.case("sorted:zo_range", &[lo.as_bytes(), hi.as_bytes(), &list.join("\n").into_bytes()]);
+                    }
+                }
+            }
         }
     }
 }
@@ -1039,7 +1131,7 @@ fn drive_join(t: &mut Tracer, a: &Args, st: &mut Stats, rng: &Rng) {
         if !a.wants(&subject) {
             continue;
         }
-        t.reset("strings", &subject, json!({"fam":"join","variant":via}));
+        rst(t, &subject, json!({"fam":"join","variant":via}));
         for parts in &lists {
             for sep in &seps {
                 let ps: Vec<&str> = parts.iter().map(|s| s.as_str()).collect();
@@ -1092,7 +1184,10 @@ fn drive_join(t: &mut Tracer, a: &Args, st: &mut Stats, rng: &Rng) {
                     Ok(out) => t.ev(json!({"op":"join","via":via,"sep":bj(sep.as_bytes()),"parts":spool_json(parts),"r":bj(&out)})),
                     Err(m) => panic_ev(t, "join", m),
                 }
-                st.add(&subject, 1, if parts.len() > 1 { 1 } else { 0 });
+                st.add(&subject, 1);
+                if parts.len() > 1 {
+                    st.case(&subject, &[sep.as_bytes(), &parts.join("\u{1}").into_bytes()]);
+                }
             }
         }
     }
@@ -1127,11 +1222,10 @@ fn drive_words(t: &mut Tracer, a: &Args, st: &mut Stats, rng: &Rng) {
         let n = r.below(120) as usize;
         texts.push((0..n).map(|_| *r.pick(&al2)).collect());
     }
-    t.reset("strings", "words:word_boundary", json!({"fam":"words","variant":"all"}));
-    t.max_events = 400;
+    rst(t, "words:word_boundary", json!({"fam":"words","variant":"all"}));
     for (k, text) in texts.iter().enumerate() {
         if k > 0 && k % 400 == 0 {
-            t.reset("strings", "words:word_boundary", json!({"fam":"words","variant":"all"}));
+            rst(t, "words:word_boundary", json!({"fam":"words","variant":"all"}));
         }
         let base = text.as_ptr() as usize;
         let r = guard(|| {
@@ -1154,15 +1248,18 @@ fn drive_words(t: &mut Tracer, a: &Args, st: &mut Stats, rng: &Rng) {
             Ok(e) => t.ev(e),
             Err(m) => panic_ev(t, "words", m),
         }
-        st.add("words:word_boundary", 3 + 2 * text.len() as u64, if text.is_empty() { 0 } else { 1 });
+        st.add("words:word_boundary", 3 + 2 * text.len() as u64);
+        if !text.is_empty() {
+            st.case("words:word_boundary", &[text]);
+        }
     }
-    t.max_events = 3000;
 }
 
 // ---------------------------------------------------------------- lines
 
 fn drive_lines(t: &mut Tracer, a: &Args, st: &mut Stats, rng: &Rng) {
     if a.wants("lines:line_processor") {
+        group(t, 150);
         let al: [&[u8]; 4] = [b"a", b" ", b"\n", b"\r"];
         let mut texts = exhaustive(&al, if a.thorough() { 6 } else { 4 });
         let fixed: Vec<&str> = vec![
@@ -1191,11 +1288,10 @@ fn drive_lines(t: &mut Tracer, a: &Args, st: &mut Stats, rng: &Rng) {
             }
             texts.push(s.into_bytes());
         }
-        t.max_events = 150;
-        t.reset("strings", "lines:line_processor", json!({"fam":"lines","variant":"all"}));
+        rst(t, "lines:line_processor", json!({"fam":"lines","variant":"all"}));
         for (k, text) in texts.iter().enumerate() {
             if k > 0 && k % 150 == 0 {
-                t.reset("strings", "lines:line_processor", json!({"fam":"lines","variant":"all"}));
+                rst(t, "lines:line_processor", json!({"fam":"lines","variant":"all"}));
             }
             let mut res = vec![];
             for cfgbits in 0..8u32 {
@@ -1258,10 +1354,12 @@ fn drive_lines(t: &mut Tracer, a: &Args, st: &mut Stats, rng: &Rng) {
             }
             let nres = res.len() as u64;
             t.ev(json!({"op":"lines","text":bj(text),"res":res}));
-            st.add("lines:line_processor", nres, if text.is_empty() { 0 } else { 1 });
+            st.add("lines:line_processor", nres);
+            if !text.is_empty() {
+                st.case("lines:line_processor", &[text]);
+            }
         }
-        t.max_events = 3000;
-    }
+        }
     // LineSplitter: fields of one line
     let al: [&[u8]; 3] = [b"a", b",", b" "];
     let mut lines: Vec<String> = exhaustive(&al, if a.thorough() { 5 } else { 4 }).into_iter().map(|b| String::from_utf8(b).unwrap()).collect();
@@ -1273,7 +1371,8 @@ fn drive_lines(t: &mut Tracer, a: &Args, st: &mut Stats, rng: &Rng) {
         if !a.wants(subject) {
             continue;
         }
-        t.reset("strings", subject, json!({"fam":"split","variant":strategy}));
+        group(t, 100);
+        rst(t, subject, json!({"fam":"split","variant":strategy}));
         let mut sp = match strategy {
             "simple" => LineSplitter::new(),
             "optimized" => LineSplitter::new().with_optimized_strategy(),
@@ -1286,7 +1385,10 @@ fn drive_lines(t: &mut Tracer, a: &Args, st: &mut Stats, rng: &Rng) {
                     Ok(r) => cases.push(json!({"line":bj(line.as_bytes()),"d":bj(d.as_bytes()),"ok":true,"r":spool_json(&r)})),
                     Err(_) => cases.push(json!({"line":bj(line.as_bytes()),"d":bj(d.as_bytes()),"ok":false,"r":[]})),
                 }
-                st.add(subject, 1, if line.contains(d) { 1 } else { 0 });
+                st.add(subject, 1);
+                if line.contains(d) {
+                    st.case(subject, &[line.as_bytes(), d.as_bytes()]);
+                }
                 if cases.len() >= 200 {
                     t.ev(json!({"op":"split","strategy":strategy,"cases":cases}));
                     cases = vec![];
@@ -1339,7 +1441,7 @@ fn drive_case(t: &mut Tracer, a: &Args, st: &mut Stats, rng: &Rng) {
         if !a.wants(subject) {
             continue;
         }
-        t.reset("strings", subject, json!({"fam":"case","variant":subject}));
+        rst(t, subject, json!({"fam":"case","variant":subject}));
         let mut cases = vec![];
         for s in pool.iter() {
             let r = guard(|| -> Option<String> {
@@ -1363,7 +1465,10 @@ fn drive_case(t: &mut Tracer, a: &Args, st: &mut Stats, rng: &Rng) {
                 Ok(None) => cases.push(json!({"s":bj(s.as_bytes()),"mode":mode,"ok":false,"r":[]})),
                 Err(_) => cases.push(json!({"s":bj(s.as_bytes()),"mode":"panic","ok":false,"r":[]})),
             }
-            st.add(subject, 1, if s.bytes().any(|b| b.is_ascii_alphabetic()) { 1 } else { 0 });
+            st.add(subject, 1);
+            if s.bytes().any(|b| b.is_ascii_alphabetic()) {
+                st.case(subject, &[s.as_bytes()]);
+            }
         }
         t.ev(json!({"op":"case","cases":cases}));
     }
@@ -1376,31 +1481,39 @@ fn main() {
     quiet_panics();
     let rng = Rng::new(a.seed);
     let mut t = Tracer::new(&a.out, "str");
-    let mut st = Stats { evals: 0, events: 0, cases: 0, subjects: serde_json::Map::new() };
+    let mut st = Stats { evals: 0, events: 0, seen: std::collections::HashSet::new(), subjects: serde_json::Map::new() };
     match a.mode.as_str() {
         "drive" => {
             // ---- FastStr / SIMD string functions: exhaustive small strings and the families
-            t.max_events = 30;
             let al: [&[u8]; 3] = [&[0x00], b"a", &[0xff]];
             // length <= 5 over three symbols incl. 0x00 and 0xff: 364 strings, all pairs
             let ex = exhaustive(&al, a.get_u64("exhlen", 5) as usize);
+            let ex4 = exhaustive(&al, 4);
+            let fams = byte_families(&rng, a.thorough());
+            group(&mut t, 30);
             drive_faststr(&mut t, &a, &mut st, "exh3", &ex);
-            drive_simd(&mut t, &a, &mut st, "exh3", &exhaustive(&al, 4));
-            for (fam, pool) in byte_families(&rng, a.thorough()) {
-                drive_faststr(&mut t, &a, &mut st, &fam, &pool);
-                drive_simd(&mut t, &a, &mut st, &fam, &pool);
+            for (fam, pool) in &fams {
+                drive_faststr(&mut t, &a, &mut st, fam, pool);
             }
-            t.max_events = 60;
+            group(&mut t, 30);
+            drive_simd(&mut t, &a, &mut st, "exh3", &ex4, true);
+            for (fam, pool) in &fams {
+                drive_simd(&mut t, &a, &mut st, fam, pool, true);
+            }
+            group(&mut t, 30);
+            drive_simd(&mut t, &a, &mut st, "exh3", &ex4, false);
+            for (fam, pool) in &fams {
+                drive_simd(&mut t, &a, &mut st, fam, pool, false);
+            }
             drive_numeric(&mut t, &a, &mut st, &rng);
-            t.max_events = 4000;
             drive_lexiter(&mut t, &a, &mut st, &rng);
-            t.max_events = 60;
             drive_sorted(&mut t, &a, &mut st, &rng);
-            t.max_events = 400;
+            group(&mut t, 400);
             drive_join(&mut t, &a, &mut st, &rng);
+            group(&mut t, 400);
             drive_words(&mut t, &a, &mut st, &rng);
             drive_lines(&mut t, &a, &mut st, &rng);
-            t.max_events = 100;
+            group(&mut t, 100);
             drive_case(&mut t, &a, &mut st, &rng);
         }
         m => {
@@ -1412,6 +1525,6 @@ fn main() {
     write_summary(
         &a.out,
         &json!({"events": t.total_events, "runs": t.runs, "files": t.files.len(), "evaluations": st.evals,
-                "cases": st.cases, "subjects": Value::Object(st.subjects)}),
+                "cases": st.seen.len(), "stat_events": st.events, "subjects": Value::Object(st.subjects)}),
     );
 }
